@@ -51,6 +51,9 @@ pub struct Cfg {
     pub rt_workers: usize,
     /// deferred index dump (min,max) in ms
     pub defer_ms: (u64, u64),
+    /// blob file name prefix handed to the builder (None = the harness default "t")
+    #[serde(default)]
+    pub prefix: Option<String>,
     pub validate_data: bool,
     pub ignore_corrupted: bool,
     /// None = pearl default (32 MiB)
@@ -74,6 +77,7 @@ impl Default for Cfg {
             allow_dup: true,
             rt_workers: 2,
             defer_ms: (60_000, 180_000),
+            prefix: None,
             validate_data: false,
             ignore_corrupted: false,
             dirty_limit: None,
@@ -101,7 +105,7 @@ impl Cfg {
     pub fn builder(&self, dir: &Path) -> Builder {
         let mut b = Builder::new()
             .work_dir(dir)
-            .blob_file_name_prefix(PREFIX)
+            .blob_file_name_prefix(self.prefix.as_deref().unwrap_or(PREFIX))
             .max_blob_size(self.max_blob_size)
             .max_data_in_blob(self.max_data_in_blob)
             .set_deferred_index_dump_times(Duration::from_millis(self.defer_ms.0), Duration::from_millis(self.defer_ms.1))
@@ -236,6 +240,8 @@ pub trait Sut: Send + Sync {
     async fn restore_active_bg(&self);
     async fn force_update(&self, pred: Pred);
     async fn offload(&mut self, needed: usize, level: usize) -> usize;
+    /// `Storage::init()` on the already initialised object
+    async fn init_again(&mut self) -> Result<()>;
     async fn fsyncdata(&self) -> std::io::Result<()>;
     async fn free_excess_resources(&self) -> usize;
     async fn has_active(&self) -> bool;
@@ -365,6 +371,9 @@ impl<const N: usize> Sut for S<N> {
     }
     async fn offload(&mut self, needed: usize, level: usize) -> usize {
         BloomProvider::offload_buffer(&mut self.0, needed, level).await
+    }
+    async fn init_again(&mut self) -> Result<()> {
+        self.0.init().await
     }
     async fn fsyncdata(&self) -> std::io::Result<()> {
         self.0.fsyncdata().await
